@@ -13,7 +13,7 @@ EXPLANATION = (
     "R03.4: the array-length wildcard occurs only in parameter positions of builtin schemes. R03.5: every pattern form constrains "
     "the scrutinee type (the expected type reaches every check_pat_* handler and is used in a constraint or recursive check); tuple "
     "patterns always constrain the scrutinee to the tuple of their sub-pattern types. R03.6 (shared with C07): monomorphisation "
-    "substitutions use argument and result types. Completeness of constraint generation (the typing rules themselves) is not decided.")
+    "substitutions use argument and result types; R03.7 (shared with C07 R07.2 / C08 R08.1): every structural traversal of types handles and uses every child of every type former, and the capture walk of closure conversion visits every sub-term (no variable use is left without a binder). Completeness of constraint generation (the typing rules themselves) is not decided.")
 
 PL = "crates/compiler/src/pipeline/pipeline.rs"
 SEP = "crates/compiler/src/pipeline/separate.rs"
@@ -312,4 +312,7 @@ def run(run, model):
     run.try_rule(r03_4, model)
     run.try_rule(r03_5, model)
     run.try_rule(c07.r07_4, model)
+    run.try_rule(c07.r07_2, model)
+    from rules import c08
+    run.try_rule(c08.r08_1, model)
     run.assume("constraint generation in check.rs is taken as given; only the gates, the unifier and the pattern/expected-type plumbing are decided")
